@@ -470,6 +470,9 @@ func decimal64Equal(d1, d2 *sdcpb.Decimal64) bool {
 }
 
 func TypedValueToString(tv *sdcpb.TypedValue) string {
+	if tv == nil {
+		return ""
+	}
 	switch tv.Value.(type) {
 	case *sdcpb.TypedValue_AnyVal:
 		return string(tv.GetAnyVal().GetValue()) // questionable...
